@@ -68,17 +68,25 @@ def field_type(f):
 
 def field_decl(f, vis=""):
     lines = []
+    after = []
     if f.get("doc"):
         form = f.get("doc_form", "///")
         if form == "///":
             lines.append("/// " + f["doc"])
         elif form == "attr":
             lines.append("#[doc = %s]" % rstr(f["doc"]))
+        elif form == "after":
+            # the documentation follows the #[bits] attribute
+            after.append("/// " + f["doc"])
+        elif form == "split":
+            lines.append("/// " + f["doc"][:4])
+            after.append("#[doc = %s]" % rstr(f["doc"][4:] or "."))
         else:
             lines.append("#[doc = concat!(%s, %s)]" % (rstr(f["doc"][:3]), rstr(f["doc"][3:])))
     for a in f.get("extra_attrs", []):
         lines.append(a)
     lines.append(field_attr(f))
+    lines += after
     lines.append("%s%s: %s," % (vis, f["name"], field_type(f)))
     return lines
 
@@ -143,18 +151,33 @@ def bitfield_decl(case, vis=None, docs=False):
         args.append("default = %s" % val if d["syntax"] == "=" else "default: %s" % val)
     if case["debug"]:
         args.append("debug")
-    lines.append("#[bitfield(%s)]" % ", ".join(args))
+    frag = case.get("via_macro")
+    body = []
+    if frag and d is not None:
+        # the declaration is the body of a macro_rules! macro; base type and default value arrive as fragments
+        args = ["$b", ("default = $d" if d["syntax"] == "=" else "default: $d")] + args[2:]
+    body.append("#[bitfield(%s)]" % ", ".join(args))
     for extra in case.get("extra_attrs", []):
-        lines.append(extra)
-    lines.append("%sstruct %s {" % (vis, case["name"]))
+        body.append(extra)
+    body.append("%sstruct %s {" % (vis, case["name"]))
     for f in case["fields"]:
         f2 = f
         if docs and not f.get("doc"):
-            f2 = dict(f, doc="field %s" % f["name"].replace("r#", ""), doc_form=("///", "attr", "concat", "///")[(len(f["name"]) + f["ranges"][0][0]) % 4])
+            f2 = dict(f, doc="field %s" % f["name"].replace("r#", ""), doc_form=("///", "attr", "concat", "///", "after", "split")[(len(f["name"]) + f["ranges"][0][0]) % 6])
         for l in field_decl(f2, vis=("pub " if case.get("pub_fields") else "")):
-            lines.append("    " + l)
-    lines.append("}")
-    return lines
+            body.append("    " + l)
+    body.append("}")
+    if frag and d is not None:
+        mname = "declare_%s" % case["name"].lower()
+        doc_lines = [l for l in lines if l.startswith("///") and l is lines[-1]]
+        if doc_lines:
+            lines.pop()
+        lines.append("macro_rules! %s { ($b:ty, $d:%s) => {" % (mname, frag))
+        lines += ["    " + l for l in doc_lines + body]
+        lines.append("} }")
+        lines.append("%s!(%s, %s);" % (mname, base_type_text(case), val))
+        return lines
+    return lines + body
 
 
 def helper_decl(h, docs=False):
